@@ -214,7 +214,7 @@ class CaseOracle:
                     want = m.resolve(scope, t)
                     if want is not None and origin != want:
                         out.append(V("C04", "wrong_constructor", {"component": c, "type": t, "got": origin, "want": want, "req": req_brief(req)},
-                                     relation=self._relation(scope, origin)))
+                                     relation=self._relation(scope, origin), pattern=self._override_pattern()))
             elif e["k"] in ("construct", "fail") and c in self.ctors:
                 for (t, mode, iid, root, origin) in e.get("in", []):
                     if origin == "?":
@@ -238,6 +238,12 @@ class CaseOracle:
         if hid is not None and exp["kind"] == "handler":
             out += self._check_order_and_errors(req, rec, hid, evs, fails, resp)
         return out
+
+    def _override_pattern(self):
+        if not hasattr(self, "_ovp"):
+            from e2e import patterns
+            self._ovp = "request_scoped_override_below_inherited_wrap" if patterns.request_scoped_override_below_inherited_wrap(self.spec, self.m) else "absent"
+        return self._ovp
 
     def _relation(self, scope, origin):
         """How is the (wrong) registration related to the injecting scope? (for signatures)"""
